@@ -1,6 +1,6 @@
 #!/bin/bash
 # usage: tools/seed_run.sh <patch.diff> <check ids...>  -- applies the patch to /repo, runs the checks (quick), undoes it
-P=$1; shift
+P=$(readlink -f $1); shift
 git -C /repo diff --quiet || { echo "/repo not clean"; exit 9; }
 git -C /repo apply $P || { echo "patch does not apply to /repo"; exit 8; }
 for c in "$@"; do
